@@ -38,7 +38,11 @@ class LineCurve(AnalyticCurve):
         self.point_1 = Point(point_1)
         self.point_2 = Point(point_2)
 
-        super().__init__(lambda t: self.point_1.position + self.vector * t, bounds)
+        # a bound method (unlike a lambda) follows the object when it is copied
+        super().__init__(self._point_on_line, bounds)
+
+    def _point_on_line(self, param: float):
+        return self.point_1.position + self.vector * param
 
     @property
     def vector(self) -> NPVectorType:
@@ -71,7 +75,11 @@ class CircleCurve(AnalyticCurve):
         normal = f.unit_vector(normal)
         self.atop = Point(origin + normal)
 
-        super().__init__(lambda t: f.rotate(self.rim.position, t, self.normal, self.origin.position), bounds)
+        # a bound method (unlike a lambda) follows the object when it is copied
+        super().__init__(self._point_on_circle, bounds)
+
+    def _point_on_circle(self, param: float):
+        return f.rotate(self.rim.position, param, self.normal, self.origin.position)
 
     @property
     def normal(self) -> NPVectorType:
